@@ -62,6 +62,50 @@ theorem logUniform_normalised (a b : ℝ) (ha : 0 < a) (hab : a < b) :
   rw [intervalIntegral.integral_eq_sub_of_hasDerivAt hderiv hcont.intervalIntegrable]
   rw [sub_self, zero_div, sub_zero, div_self hL.ne']
 
+/-- Lebesgue measure of an initial piece of the unit interval -/
+theorem volume_unit_le (c : ℝ) (h0 : 0 ≤ c) (h1 : c ≤ 1) :
+    volume {u : ℝ | u ∈ Set.Ico (0 : ℝ) 1 ∧ u ≤ c} = ENNReal.ofReal c := by
+  rcases lt_or_eq_of_le h1 with hlt | heq
+  · have : {u : ℝ | u ∈ Set.Ico (0 : ℝ) 1 ∧ u ≤ c} = Set.Icc 0 c := by
+      ext u; simp only [Set.mem_ofPred_eq, Set.mem_Ico, Set.mem_Icc]
+      constructor
+      · rintro ⟨⟨a, _⟩, b⟩; exact ⟨a, b⟩
+      · rintro ⟨a, b⟩; exact ⟨⟨a, lt_of_le_of_lt b hlt⟩, b⟩
+    rw [this, Real.volume_Icc, sub_zero]
+  · subst heq
+    have : {u : ℝ | u ∈ Set.Ico (0 : ℝ) 1 ∧ u ≤ 1} = Set.Ico 0 1 := by
+      ext u; simp only [Set.mem_ofPred_eq, Set.mem_Ico]
+      constructor
+      · rintro ⟨h, _⟩; exact h
+      · intro h; exact ⟨h, h.2.le⟩
+    rw [this, Real.volume_Ico, sub_zero]
+
+/-- **the period draw follows the declared density**: with `u` uniform on `[0, 1)`, the probability that the drawn period
+is `≤ x` is the declared CDF `(ln x − ln a)/(ln b − ln a)` for every `x` in the support (whose derivative is the
+declared density, `logUniform_density`) -/
+theorem logUniform_draw_law (a b x : ℝ) (ha : 0 < a) (hab : a < b) (hax : a ≤ x) (hxb : x ≤ b) :
+    volume {u : ℝ | u ∈ Set.Ico (0 : ℝ) 1 ∧ logUniformDraw realFn a b u ≤ x} =
+      ENNReal.ofReal (logUniformCdf realFn a b x) := by
+  have hL : 0 < Real.log b - Real.log a := log_sub_pos ha hab
+  have hx : 0 < x := lt_of_lt_of_le ha hax
+  have hb : 0 < b := lt_trans ha hab
+  have hc0 : 0 ≤ logUniformCdf realFn a b x := by
+    simp only [logUniformCdf, realFn_log]
+    exact div_nonneg (sub_nonneg.mpr (Real.log_le_log ha hax)) hL.le
+  have hc1 : logUniformCdf realFn a b x ≤ 1 := by
+    simp only [logUniformCdf, realFn_log]
+    rw [div_le_one hL]
+    exact sub_le_sub_right (Real.log_le_log hx hxb) _
+  rw [← volume_unit_le _ hc0 hc1]
+  congr 1
+  ext u
+  simp only [Set.mem_ofPred_eq]
+  have key : logUniformDraw realFn a b u ≤ x ↔ u ≤ logUniformCdf realFn a b x := by
+    simp only [logUniformDraw, logUniformCdf, realFn_log, realFn_exp]
+    rw [← Real.le_log_iff_exp_le hx, le_div_iff₀ hL]
+    constructor <;> intro h <;> linarith
+  rw [key]
+
 /-- the value in the support is exactly `-ln x - ln ln(b/a)` -/
 theorem logUniform_logp_value (a b x : ℝ) (ha : 0 < a) (hab : a < b) (hax : a ≤ x) (hxb : x ≤ b) :
     logUniformLogp realFn a b x = some (-Real.log x - Real.log (Real.log (b / a))) := by
